@@ -275,6 +275,12 @@ func (e *Engine) inlinable(fn *ssa.Function) bool {
 	if e.inModule(fn) {
 		return true
 	}
+	if fn.Synthetic != "" && fn.Pkg == nil && fn.Signature.Recv() != nil {
+		// promoted-method / pointer-receiver wrappers generated by go/ssa: a single forwarding call
+		if n, ok := derefNamed(fn.Signature.Recv().Type()); ok && n.Obj().Pkg() != nil && strings.HasPrefix(n.Obj().Pkg().Path(), e.module) {
+			return true
+		}
+	}
 	pp := e.funcPkgPath(fn)
 	for _, p := range inlineExtra {
 		if strings.HasPrefix(pp, p) && strings.HasPrefix(fn.Name(), "Get") {
@@ -536,3 +542,11 @@ func (e *Engine) constGlobalVal(c *FnCtx, st *State, key string) Val {
 }
 
 func stores(i *constGlobalInfo) []int { return nil }
+
+func derefNamed(t types.Type) (*types.Named, bool) {
+	if p, ok := t.(*types.Pointer); ok {
+		t = p.Elem()
+	}
+	n, ok := t.(*types.Named)
+	return n, ok
+}
